@@ -798,6 +798,41 @@ func c16unionProbes(c *core.Ctx) {
 				Input: map[string]interface{}{"document": doc2, "find": tc.path}, Impl: got, Spec: tc.want})
 		}
 	}
+	// text beyond the subset the evaluator understands is refused - not read as some other expression
+	for _, expr := range []string{"rate>100 and max-rate_x>5", "rate>100 or rate<5", "rate>100)", "rate>100 #note", "rate>10+90", "rate>100 max-rate_x>5", "not(rate>100)", "rate[1]>100", "rate>100;rate<5", "(rate>100)", "rate>100 and", "rate!100"} {
+		c.Evaluations++
+		c.Count("probe", "unsupported expression")
+		var got string
+		perr := safeDo(func() error {
+			n, err := nodeutil.ReadJSON(doc2)
+			if err != nil {
+				return err
+			}
+			sel, err := node.NewBrowser(m2, n).Root().Find("item?where=" + url.QueryEscape(expr))
+			if err != nil {
+				got = "refused"
+				return nil
+			}
+			if sel == nil {
+				got = "nil"
+				return nil
+			}
+			js, err := nodeutil.WriteJSON(sel)
+			if err != nil {
+				got = "refused"
+				return nil
+			}
+			got = "read " + js
+			return nil
+		})
+		if perr != nil {
+			got = perr.Error()
+		}
+		if got != "refused" {
+			c.Violation(core.Replay{Kind: "property-failure", Class: "probe-unsupported-expression", Summary: fmt.Sprintf("where=%q is outside the evaluator's subset and must be refused; it was taken as some expression: %s", expr, short(got)),
+				Input: map[string]interface{}{"document": doc2, "where": expr}})
+		}
+	}
 	doc := `{"item":[{"id":"a","limit":10,"dep":"x","eq":"x"},{"id":"b","limit":"none","dep":"y","eq":"y"},{"id":"c","limit":5,"dep":"z","eq":"z"},{"id":"d","dep":"w","eq":"w"}]}`
 	for _, tc := range []struct{ path, want string }{
 		{"item", `{"item":[{"id":"a","limit":10,"eq":"x"},{"id":"b","limit":"none","dep":"y"},{"id":"c","limit":5,"dep":"z"},{"id":"d"}]}`},
